@@ -1952,12 +1952,12 @@ Proof.
                   if tl_empty f' then set_queue p1 (assoc_del (tfrom t) (queue p1)) else set_queue p1 (assoc_set (tfrom t) f' (queue p1))
       end)).
   { destruct (assoc (tfrom t) (queue p1)) as [f|] eqn:Q; auto. destruct (tl_remove o f t) as [[b invs] f'] eqn:R.
-    pose proof (tl_remove_caps _ _ _ _ _ _ R (proj2 H1 _ _ Q)) as C. destruct (tl_empty f'); [eapply CS_qdel|eapply CS_qset]; eauto; reflexivity. }
+    pose proof (tl_remove_caps _ _ _ _ _ _ R (proj2 H1 _ _ Q)) as C. destruct (tl_empty f'); [apply (CS_qdel p1 _ (tfrom t) H1); reflexivity|apply (CS_qset p1 _ (tfrom t) f' H1 C); reflexivity]. }
   destruct (assoc (tfrom t) (pending p1)) as [pl|] eqn:P; auto.
   destruct (tl_remove o pl t) as [[b invs] pl'] eqn:R. destruct b; auto.
   pose proof (tl_remove_caps _ _ _ _ _ _ R (proj1 H1 _ _ P)) as C.
   match goal with |- caps_sound (if _ then pn_set ?XX _ _ else _) => assert (H2 : caps_sound XX) end.
-  { apply enqueue_fold_CS. destruct (tl_empty pl'); [eapply CS_pdel|eapply CS_pset]; eauto; reflexivity. }
+  { apply enqueue_fold_CS. destruct (tl_empty pl'); [apply (CS_pdel p1 _ (tfrom t) H1); reflexivity|apply (CS_pset p1 _ (tfrom t) pl' H1 C); reflexivity]. }
   match goal with |- caps_sound (if ?c then _ else _) => destruct c end; exact H2.
 Qed.
 Lemma remove_fold_CS : forall o (l : list tx) p, caps_sound p -> caps_sound (fold_left (fun q t => remove_tx o q (thash t)) l p).
@@ -1985,7 +1985,7 @@ Proof.
   { destruct (memZ a (locals p3)); [inversion E1; subst; auto|].
     destruct (tl_cap l3 (c_aqueue (conf p3))) as [[caps l4']|] eqn:C; [|discriminate]. inversion E1; subst; clear E1.
     destruct (drop_all_pq caps (set_queue p3 (assoc_set a l4 (queue p3)))) as [Pp4 Pq4]. cbn [pending queue set_queue] in Pp4, Pq4.
-    eapply CS_qset with (p := p3); eauto. eapply tl_cap_caps; eauto. }
+    apply (CS_qset p3 _ a l4 H3 (tl_cap_caps _ _ _ _ C C3) Pp4 Pq4). }
   inversion E2; subst. destruct (tl_empty l4); auto. eapply CS_qdel; eauto; reflexivity.
 Qed.
 Lemma shrink_one_CS : forall p a p', caps_sound p -> shrink_one p a = Ok p' -> caps_sound p'.
@@ -2015,7 +2015,7 @@ Proof.
   assert (H4 : caps_sound p4).
   { destruct ((0 <? tl_len l2) && match tl_get l2 (cur_nonce p a) with None => true | Some _ => false end); [|inversion E1; subst; auto].
     destruct (tl_cap l2 0) as [[caps l3]|] eqn:C; [|discriminate]. inversion E1; subst; clear E1.
-    apply enqueue_fold_CS. eapply CS_pset with (p := p3); eauto; try reflexivity. eapply tl_cap_caps; eauto. }
+    apply enqueue_fold_CS. apply (CS_pset p3 _ a l4 H3 (tl_cap_caps _ _ _ _ C C2)); reflexivity. }
   inversion E2; subst. destruct (tl_empty l4); auto. eapply CS_pdel with (p := p4); eauto; reflexivity.
 Qed.
 Lemma add_insert_CS : forall p t local r p', caps_sound p -> add_insert p t local = (r, p') -> caps_sound p'.
@@ -2146,4 +2146,383 @@ Theorem caps_sound_invariant : forall h p p', caps_sound p -> run p h = Ok p' ->
 Proof.
   induction h as [|[o x] h IH]; intros p p' Hun H; cbn [run] in H; [inversion H; subst; auto|].
   apply bind_ok in H. destruct H as (p1 & H1 & H2). eapply IH; [|exact H2]. eapply step_CS; eauto.
+Qed.
+
+(* ================================================================ affordability half of pending_executable *)
+Definition fr (p q : pool) : Prop := cur q = cur p /\ maxgas q = maxgas p.
+Lemma fr_refl : forall p, fr p p. Proof. split; reflexivity. Qed.
+Lemma fr_trans : forall p q r, fr p q -> fr q r -> fr p r. Proof. intros p q r [A B] [C D]. split; congruence. Qed.
+Definition aff (p : pool) (a : Z) (l : list tx) : Prop := Forall (fun t => tcost t <= cur_balance p a /\ tgas t <= maxgas p) l.
+Lemma aff_fr : forall p q a l, fr p q -> aff p a l -> aff q a l.
+Proof. intros p q a l [A B] H. unfold aff, cur_balance in *. rewrite A, B. exact H. Qed.
+Lemma AF_same : forall p q, pending q = pending p -> fr p q -> pending_affordable p -> pending_affordable q.
+Proof. intros p q Hp F H a l Hl. rewrite Hp in Hl. apply (aff_fr p q a _ F). apply H. auto. Qed.
+Lemma AF_pset : forall p q a l', pending_affordable p -> aff p a (items l') -> pending q = assoc_set a l' (pending p) -> fr p q -> pending_affordable q.
+Proof.
+  intros p q a l' H A Hp F b l Hl. rewrite Hp in Hl. apply (aff_fr p q b _ F).
+  destruct (Z.eq_dec b a) as [->|Hne]; [rewrite assoc_set_same in Hl; inversion Hl; subst; auto|rewrite assoc_set_other in Hl by auto; apply H; auto].
+Qed.
+Lemma AF_pdel : forall p q a, pending_affordable p -> pending q = assoc_del a (pending p) -> fr p q -> pending_affordable q.
+Proof.
+  intros p q a H Hp F b l Hl. rewrite Hp in Hl. apply (aff_fr p q b _ F).
+  destruct (Z.eq_dec b a) as [->|Hne]; [rewrite assoc_del_same in Hl; discriminate|rewrite assoc_del_other in Hl by auto; apply H; auto].
+Qed.
+Lemma aff_incl : forall p a l l', aff p a l -> incl l' l -> aff p a l'.
+Proof. unfold aff. intros p a l l' H I. rewrite Forall_forall in *. auto. Qed.
+
+Lemma fr_drop_all : forall D p, fr p (drop_all p D).
+Proof. unfold drop_all. induction D as [|d D IH]; intros p; cbn [fold_left]; [apply fr_refl|]. eapply fr_trans; [|apply IH]. split; reflexivity. Qed.
+Lemma fr_enqueue : forall p t, fr p (snd (enqueue_tx p t)).
+Proof.
+  intros p t. unfold enqueue_tx. destruct (tl_add _ t (c_bump (conf p))) as [[ins old] l']. destruct ins; [destruct old|]; split; reflexivity.
+Qed.
+Lemma fr_enqueue_fold : forall ex p, fr p (fold_left (fun q x => snd (enqueue_tx q x)) ex p).
+Proof. induction ex as [|x ex IH]; intros p; cbn [fold_left]; [apply fr_refl|]. eapply fr_trans; [apply fr_enqueue|apply IH]. Qed.
+Lemma fr_promote : forall p a t, fr p (promote_tx p a t).
+Proof.
+  intros p a t. unfold promote_tx. destruct (tl_add _ t (c_bump (conf p))) as [[ins old] l']. destruct ins; [|split; reflexivity].
+  destruct old; cbn; match goal with |- context [match ?X with _ => _ end] => destruct X end; split; reflexivity.
+Qed.
+
+Lemma tl_add_items : forall l t bump b old l' x, tl_add l t bump = (b, old, l') -> In x (items l') -> x = t \/ In x (items l).
+Proof.
+  intros l t bump b old l' x H Hx. unfold tl_add in H. destruct (match tl_get l (tnonce t) with Some o => _ | None => false end); inversion H; subst; auto.
+  cbn [items] in Hx. apply ins_in_weak in Hx. auto.
+Qed.
+Lemma promote_AF : forall p a t, pending_affordable p -> tcost t <= cur_balance p a /\ tgas t <= maxgas p -> pending_affordable (promote_tx p a t).
+Proof.
+  intros p a t H Ht. pose proof (fr_promote p a t) as F. unfold promote_tx in *.
+  change (match assoc a (pending p) with Some l => l | None => new_txlist true end) with (list_of (pending p) a true) in *.
+  assert (A0 : aff p a (items (list_of (pending p) a true))).
+  { unfold list_of. destruct (assoc a (pending p)) eqn:E; [apply H; auto|constructor]. }
+  destruct (tl_add (list_of (pending p) a true) t (c_bump (conf p))) as [[ins old] l'] eqn:E.
+  assert (A1 : aff p a (items l')).
+  { unfold aff in *. rewrite Forall_forall in *. intros x Hx. destruct (tl_add_items _ _ _ _ _ _ _ E Hx) as [->|Hx']; auto. }
+  destruct ins.
+  - eapply AF_pset with (p := p) (l' := l'); eauto.
+    destruct old; cbn; match goal with |- context [match ?X with _ => _ end] => destruct X end; reflexivity.
+  - pose proof (tl_add_reject _ _ _ _ _ E) as ->. eapply AF_pset with (p := p) (l' := list_of (pending p) a true); eauto; try reflexivity.
+Qed.
+Lemma promote_fold_AF : forall a ready p, pending_affordable p -> aff p a ready ->
+  pending_affordable (fold_left (fun q t => promote_tx q a t) ready p) /\ fr p (fold_left (fun q t => promote_tx q a t) ready p).
+Proof.
+  induction ready as [|t ready IH]; intros p H A; cbn [fold_left]; [split; [auto|apply fr_refl]|].
+  inversion A as [|? ? At A']; subst. pose proof (fr_promote p a t) as F.
+  destruct (IH (promote_tx p a t)) as [H2 F2]; [apply promote_AF; auto|apply (aff_fr p); auto|].
+  split; auto. eapply fr_trans; eauto.
+Qed.
+
+Lemma enqueue_pending : forall p t, pending (snd (enqueue_tx p t)) = pending p.
+Proof. intros p t. unfold enqueue_tx. destruct (tl_add _ t (c_bump (conf p))) as [[ins old] l']. destruct ins; [destruct old|]; reflexivity. Qed.
+Lemma enqueue_fold_pending : forall ex p, pending (fold_left (fun q x => snd (enqueue_tx q x)) ex p) = pending p.
+Proof. induction ex as [|x ex IH]; intros p; cbn [fold_left]; auto. rewrite IH. apply enqueue_pending. Qed.
+
+Lemma remove_AF : forall o p h, pending_affordable p -> pending_affordable (remove_tx o p h) /\ fr p (remove_tx o p h).
+Proof.
+  intros o p h H. unfold remove_tx. destruct (assoc h (all p)) as [t|]; [|split; [auto|apply fr_refl]].
+  set (p1 := all_drop p h). assert (F1 : fr p p1) by (split; reflexivity). assert (H1 : pending_affordable p1) by (eapply AF_same; eauto; reflexivity).
+  clearbody p1.
+  assert (HQ : let r := match assoc (tfrom t) (queue p1) with
+      | None => p1
+      | Some f => let '(_, _, f') := tl_remove o f t in
+                  if tl_empty f' then set_queue p1 (assoc_del (tfrom t) (queue p1)) else set_queue p1 (assoc_set (tfrom t) f' (queue p1))
+      end in pending_affordable r /\ fr p r).
+  { destruct (assoc (tfrom t) (queue p1)) as [f|]; [|split; auto]. destruct (tl_remove o f t) as [[b invs] f'].
+    destruct (tl_empty f'); (split; [eapply AF_same; [| |exact H1]; [reflexivity|split; reflexivity]|eapply fr_trans; [exact F1|split; reflexivity]]). }
+  destruct (assoc (tfrom t) (pending p1)) as [pl|] eqn:P; [|exact HQ].
+  destruct (tl_remove o pl t) as [[b invs] pl'] eqn:R. destruct b; [|exact HQ].
+  assert (Ipl : incl (items pl') (items pl)).
+  { unfold tl_remove in R. destruct (tl_get pl (tnonce t)); [|inversion R].
+    destruct (strict pl); inversion R; subst; cbn; intros x Hx; repeat (apply filter_In in Hx; destruct Hx as [Hx _]); auto. }
+  match goal with |- pending_affordable (if _ then pn_set ?XX _ _ else _) /\ _ => assert (H2 : pending_affordable XX /\ fr p XX) end.
+  { match goal with |- pending_affordable (fold_left _ invs ?PB) /\ _ => set (pb := PB) end.
+    assert (Hb : pending_affordable pb /\ fr p1 pb).
+    { subst pb. destruct (tl_empty pl'); (split; [|split; reflexivity]).
+      - eapply AF_pdel with (p := p1); eauto; [reflexivity|split; reflexivity].
+      - eapply AF_pset with (p := p1) (l' := pl'); eauto; [eapply aff_incl; [apply (H1 _ _ P)|exact Ipl]|reflexivity|split; reflexivity]. }
+    destruct Hb as [Hb Fb]. pose proof (fr_enqueue_fold invs pb) as Fe. pose proof (enqueue_fold_pending invs pb) as Pe.
+    split; [eapply AF_same; eauto|eapply fr_trans; [exact F1|eapply fr_trans; eauto]]. }
+  destruct H2 as [H2 F2]. match goal with |- pending_affordable (if ?c then _ else _) /\ _ => destruct c end; split; try exact H2; exact F2.
+Qed.
+
+Definition M (p : pool) : Prop := caps_sound p /\ pending_affordable p.
+
+Lemma remove_fold_AF : forall o (l : list tx) p, pending_affordable p ->
+  pending_affordable (fold_left (fun q t => remove_tx o q (thash t)) l p) /\ fr p (fold_left (fun q t => remove_tx o q (thash t)) l p).
+Proof.
+  induction l as [|x l IH]; intros p H; cbn [fold_left]; [split; [auto|apply fr_refl]|].
+  destruct (remove_AF o p (thash x) H) as [H1 F1]. destruct (IH _ H1) as [H2 F2]. split; auto. eapply fr_trans; eauto.
+Qed.
+Lemma remove_fold_M : forall o (l : list tx) p, M p -> M (fold_left (fun q t => remove_tx o q (thash t)) l p).
+Proof. intros o l p [C A]. split; [apply remove_fold_CS; auto|apply remove_fold_AF; auto]. Qed.
+
+Lemma pe_account_M : forall o p a p', M p -> pe_account o p a = Ok p' -> M p'.
+Proof.
+  intros o p a p' [HC HA] H. split; [eapply pe_account_CS; eauto|].
+  unfold pe_account in H. destruct (assoc a (queue p)) as [l|] eqn:Q; [|inversion H; subst; auto].
+  pose proof (proj2 HC _ _ Q) as C0.
+  destruct (tl_forward l (cur_nonce p a)) as [old l1] eqn:F. pose proof (tl_forward_caps _ _ _ _ F C0) as C1.
+  set (p1 := drop_all (set_queue p (assoc_set a l1 (queue p))) old) in *.
+  destruct (drop_all_pq old (set_queue p (assoc_set a l1 (queue p)))) as [Pp1 _]. fold p1 in Pp1. cbn [pending set_queue] in Pp1.
+  assert (F1 : fr p p1) by (eapply fr_trans; [|apply fr_drop_all]; split; reflexivity).
+  assert (A1 : pending_affordable p1) by (eapply AF_same; eauto). clearbody p1.
+  destruct (tl_filter o l1 (cur_balance p1 a) (maxgas p1)) as [[drops invs] l2] eqn:Fi. destruct (tl_filter_caps _ _ _ _ _ _ _ Fi C1) as [C2 Af2].
+  set (p2 := drop_all (set_queue p1 (assoc_set a l2 (queue p1))) drops) in *.
+  destruct (drop_all_pq drops (set_queue p1 (assoc_set a l2 (queue p1)))) as [Pp2 _]. fold p2 in Pp2. cbn [pending set_queue] in Pp2.
+  assert (F2 : fr p1 p2) by (eapply fr_trans; [|apply fr_drop_all]; split; reflexivity).
+  assert (A2 : pending_affordable p2) by (eapply AF_same; eauto). clearbody p2.
+  destruct (tl_ready l2 (pn_get p2 a)) as [ready l3] eqn:R. destruct (tl_ready_caps _ _ _ _ R C2) as [_ Ir].
+  set (pb := set_queue p2 (assoc_set a l3 (queue p2))) in *.
+  assert (Fb : fr p2 pb) by (split; reflexivity).
+  assert (Ab : pending_affordable pb) by (eapply AF_same; eauto; reflexivity).
+  destruct (promote_fold_AF a ready pb Ab) as [A3 F3].
+  { apply (aff_fr p2 pb a _ Fb). apply (aff_fr p1 p2 a _ F2). eapply aff_incl; [exact Af2|exact Ir]. }
+  set (p3 := fold_left (fun q t => promote_tx q a t) ready pb) in *. clearbody p3.
+  apply bind_ok in H. destruct H as ([p4 l4] & E1 & E2).
+  assert (A4 : pending_affordable p4).
+  { destruct (memZ a (locals p3)); [inversion E1; subst; auto|].
+    destruct (tl_cap l3 (c_aqueue (conf p3))) as [[caps l4']|] eqn:C; [|discriminate]. inversion E1; subst; clear E1.
+    destruct (drop_all_pq caps (set_queue p3 (assoc_set a l4 (queue p3)))) as [Pp4 _]. cbn [pending set_queue] in Pp4.
+    eapply AF_same; [exact Pp4| |exact A3]. eapply fr_trans; [|apply fr_drop_all]. split; reflexivity. }
+  inversion E2; subst. destruct (tl_empty l4); exact A4.
+Qed.
+Lemma shrink_one_M : forall p a p', M p -> shrink_one p a = Ok p' -> M p'.
+Proof.
+  intros p a p' [HC HA] H. split; [eapply shrink_one_CS; eauto|].
+  unfold shrink_one in H. destruct (assoc a (pending p)) as [l|] eqn:P; [|discriminate].
+  destruct (tl_cap l (tl_len l - 1)) as [[drops l']|] eqn:C; [|discriminate]. inversion H; subst; clear H.
+  set (pb := set_pending p (assoc_set a l' (pending p))).
+  assert (Ab : pending_affordable pb).
+  { eapply AF_pset with (p := p) (l' := l'); eauto; [|reflexivity|split; reflexivity]. eapply aff_incl; [apply (HA _ _ P)|].
+    unfold tl_cap in C. destruct (Z.of_nat (length (items l)) <=? tl_len l - 1); [inversion C; subst; apply incl_refl|].
+    destruct (tl_len l - 1 <? 0); [discriminate|]. inversion C; subst. cbn. intros x Hx. rewrite <- (firstn_skipn (Z.to_nat (tl_len l - 1)) (items l)). apply in_or_app. auto. }
+  clearbody pb. clear C. revert pb Ab. induction drops as [|t drops IH]; intros pb Ab; cbn [fold_left]; auto.
+  apply IH. cbv zeta. match goal with |- pending_affordable (if ?c then _ else _) => destruct c end; (eapply AF_same; [| |exact Ab]; [reflexivity|split; reflexivity]).
+Qed.
+
+Lemma validate_none : forall p t local, validate_tx p t local = None -> tcost t <= cur_balance p (tfrom t) /\ tgas t <= maxgas p.
+Proof.
+  intros p t local H. unfold validate_tx in H.
+  repeat match type of H with (if ?c then _ else _) = None => destruct c eqn:?; [discriminate|] end. lia.
+Qed.
+Lemma add_insert_AF : forall p t local r p', pending_affordable p -> tcost t <= cur_balance p (tfrom t) /\ tgas t <= maxgas p ->
+  add_insert p t local = (r, p') -> pending_affordable p'.
+Proof.
+  intros p t local r p' HA Ht H. unfold add_insert in H.
+  assert (Henq : forall r p', match enqueue_tx p t with (inr e, p2) => (inr e, p2) | (inl rep, p2) => (inl rep, mark_local p2 (tfrom t) local) end = (r, p') -> pending_affordable p').
+  { intros r0 p0 E. pose proof (enqueue_pending p t) as Pe. pose proof (fr_enqueue p t) as Fe.
+    destruct (enqueue_tx p t) as [[rep|e] p2]; cbn [snd] in *; inversion E; subst.
+    - unfold mark_local. destruct local; (eapply AF_same; [| |exact HA]; auto).
+    - eapply AF_same; [| |exact HA]; auto. }
+  destruct (assoc (tfrom t) (pending p)) as [l|] eqn:P; [|eapply Henq; eauto].
+  destruct (tl_overlaps l t); [|eapply Henq; eauto].
+  destruct (tl_add l t (c_bump (conf p))) as [[ins old] l'] eqn:E. destruct ins; [|inversion H; subst; auto].
+  inversion H; subst; clear H.
+  eapply AF_pset with (p := p) (l' := l'); eauto; [|destruct old; reflexivity|destruct old; split; reflexivity].
+  unfold aff. rewrite Forall_forall. intros x Hx. destruct (tl_add_items _ _ _ _ _ _ _ E Hx) as [->|Hx']; auto.
+  pose proof (HA _ _ P) as A. unfold aff in A. rewrite Forall_forall in A. auto.
+Qed.
+Lemma add_M : forall o p t local r p', M p -> add o p t local = (r, p') -> M p'.
+Proof.
+  intros o p t local r p' [HC HA] H. split; [eapply add_CS; eauto|].
+  unfold add in H. destruct (assoc (thash t) (all p)); [inversion H; subst; auto|].
+  destruct (validate_tx p t local) eqn:V; [inversion H; subst; auto|]. apply validate_none in V.
+  match type of H with (if ?c then _ else _) = _ => destruct c end; [|eapply add_insert_AF; eauto].
+  destruct (priced_underpriced o (all p) (locals p) (pricedl p) t) as [u pr].
+  destruct u; [inversion H; subst; eapply AF_same; [| |exact HA]; [reflexivity|split; reflexivity]|].
+  match type of H with (let '(_, _) := ?d in _) = _ => destruct d as [drop pr1] end.
+  match type of H with add_insert (fold_left ?f drop ?p0) _ _ = _ => destruct (remove_fold_AF o drop p0) as [A1 F1] end.
+  { eapply AF_same; [| |exact HA]; [reflexivity|split; reflexivity]. }
+  eapply add_insert_AF; [exact A1| |exact H]. destruct F1 as [Fc Fg]. unfold cur_balance. rewrite Fc, Fg. exact V.
+Qed.
+
+(* demoteUnexecutables re-establishes affordability of every pending list from caps_sound alone *)
+Lemma demote_account_aff : forall o p a p', caps_sound p -> demote_account o p a = Ok p' ->
+  fr p p' /\ (forall b, b <> a -> assoc b (pending p') = assoc b (pending p)) /\ (forall l, assoc a (pending p') = Some l -> aff p' a (items l)).
+Proof.
+  intros o p a p' HC H. unfold demote_account in H. destruct (assoc a (pending p)) as [l|] eqn:P.
+  2:{ inversion H; subst. split; [apply fr_refl|split; auto]. intros l Hl. rewrite P in Hl. discriminate. }
+  pose proof (proj1 HC _ _ P) as C0.
+  destruct (tl_forward l (cur_nonce p a)) as [old l1] eqn:F. pose proof (tl_forward_caps _ _ _ _ F C0) as C1.
+  set (p1 := drop_all (set_pending p (assoc_set a l1 (pending p))) old) in *.
+  destruct (drop_all_pq old (set_pending p (assoc_set a l1 (pending p)))) as [Pp1 _]. fold p1 in Pp1. cbn [pending set_pending] in Pp1.
+  assert (F1 : fr p p1) by (eapply fr_trans; [|apply fr_drop_all]; split; reflexivity). clearbody p1.
+  destruct (tl_filter o l1 (cur_balance p1 a) (maxgas p1)) as [[drops invs] l2] eqn:Fi. destruct (tl_filter_caps _ _ _ _ _ _ _ Fi C1) as [_ Af2].
+  change (aff p1 a (items l2)) in Af2.
+  set (p2 := drop_all (set_pending p1 (assoc_set a l2 (pending p1))) drops) in *.
+  destruct (drop_all_pq drops (set_pending p1 (assoc_set a l2 (pending p1)))) as [Pp2 _]. fold p2 in Pp2. cbn [pending set_pending] in Pp2.
+  assert (F2 : fr p1 p2) by (eapply fr_trans; [|apply fr_drop_all]; split; reflexivity). clearbody p2.
+  pose proof (enqueue_fold_pending invs p2) as P3. pose proof (fr_enqueue_fold invs p2) as F3.
+  set (p3 := fold_left (fun q x => snd (enqueue_tx q x)) invs p2) in *. clearbody p3.
+  apply bind_ok in H. destruct H as ([p4 l4] & E1 & E2).
+  assert (K4 : fr p3 p4 /\ pending p4 = assoc_set a l4 (pending p3) /\ incl (items l4) (items l2)).
+  { destruct ((0 <? tl_len l2) && match tl_get l2 (cur_nonce p a) with None => true | Some _ => false end).
+    - destruct (tl_cap l2 0) as [[caps l3]|] eqn:C; [|discriminate]. inversion E1; subst; clear E1.
+      split; [|split].
+      + eapply fr_trans; [|apply fr_enqueue_fold]. split; reflexivity.
+      + rewrite enqueue_fold_pending. reflexivity.
+      + unfold tl_cap in C. destruct (Z.of_nat (length (items l2)) <=? 0); [inversion C; subst; apply incl_refl|]. cbn in C. inversion C; subst. cbn. intros x [].
+    - inversion E1; subst. split; [apply fr_refl|split; [|apply incl_refl]].
+      rewrite P3, Pp2. clear. induction (pending p1) as [|[k v] m IH]; cbn [assoc_set]; [rewrite Z.eqb_refl; auto|].
+      destruct (a =? k) eqn:E; cbn [assoc_set]; rewrite ?Z.eqb_refl, ?E; auto. rewrite IH at 1. auto. }
+  destruct K4 as (F4 & Pp4 & I4).
+  assert (Fall : fr p p4) by (eapply fr_trans; [exact F1|eapply fr_trans; [exact F2|eapply fr_trans; [exact F3|exact F4]]]).
+  assert (Fp14 : fr p1 p4) by (eapply fr_trans; [exact F2|eapply fr_trans; [exact F3|exact F4]]).
+  assert (Oth : forall b, b <> a -> assoc b (pending p4) = assoc b (pending p)).
+  { intros b Hb. rewrite Pp4, assoc_set_other, P3, Pp2, assoc_set_other, Pp1, assoc_set_other by auto. auto. }
+  assert (Afa : forall l0, assoc a (pending p4) = Some l0 -> aff p4 a (items l0)).
+  { intros l0 Hl0. rewrite Pp4, assoc_set_same in Hl0. inversion Hl0; subst. apply (aff_fr p1 p4 a _ Fp14). eapply aff_incl; eauto. }
+  inversion E2; subst. destruct (tl_empty l4).
+  - split; [eapply fr_trans; [exact Fall|split; reflexivity]|split].
+    + intros b Hb. cbn [pending set_beats set_pending]. rewrite assoc_del_other by auto. auto.
+    + intros l0 Hl0. cbn [pending set_beats set_pending] in Hl0. rewrite assoc_del_same in Hl0. discriminate.
+  - split; [exact Fall|split; auto].
+Qed.
+Lemma demote_fold_aff : forall o keys p p' D, caps_sound p ->
+  (forall a l, In a D -> assoc a (pending p) = Some l -> aff p a (items l)) ->
+  fold_res (demote_account o) keys p = Ok p' ->
+  caps_sound p' /\ fr p p' /\ (forall b, ~ In b keys -> assoc b (pending p') = assoc b (pending p)) /\
+  (forall a l, In a D \/ In a keys -> assoc a (pending p') = Some l -> aff p' a (items l)).
+Proof.
+  induction keys as [|a keys IH]; intros p p' D HC HD H; cbn [fold_res] in H.
+  - inversion H; subst. split; [auto|split; [apply fr_refl|split; [auto|]]]. intros a l [Ha|[]]; auto.
+  - apply bind_ok in H. destruct H as (p1 & H1 & H2).
+    pose proof (demote_account_CS _ _ _ _ HC H1) as C1. destruct (demote_account_aff _ _ _ _ HC H1) as (F1 & O1 & A1).
+    destruct (IH p1 p' (a :: D) C1) as (C' & F' & O' & A'); auto.
+    + intros b l [<-|Hb] Hl; [apply A1; auto|]. destruct (Z.eq_dec b a) as [->|Hne]; [apply A1; auto|].
+      rewrite O1 in Hl by auto. apply (aff_fr p p1 b _ F1). eapply HD; eauto.
+    + split; [auto|split; [eapply fr_trans; eauto|split]].
+      * intros b Hb. rewrite O' by (intros Hk; apply Hb; right; auto). apply O1. intros ->. apply Hb. left; auto.
+      * intros b l Hb Hl. apply (A' b l); [cbn [In] in *; tauto|exact Hl].
+Qed.
+Lemma memZ_in : forall k l, memZ k l = true <-> In k l.
+Proof.
+  intros k l. unfold memZ. rewrite existsb_exists. split; [intros (x & Hx & E); assert (k = x) by lia; subst; auto|intros H; exists k; split; auto; lia].
+Qed.
+Lemma order_keys_in : forall perm keys a, In a keys -> In a (order_keys perm keys).
+Proof.
+  intros perm keys a Ha. unfold order_keys. apply in_or_app. destruct (memZ a perm) eqn:E.
+  - left. apply filter_In. split; [apply memZ_in; auto|apply memZ_in; auto].
+  - right. apply filter_In. split; auto. rewrite E. auto.
+Qed.
+Lemma assoc_in_keys : forall A a (m : list (Z * A)) v, assoc a m = Some v -> In a (map fst m).
+Proof.
+  induction m as [|[k w] m IH]; intros v H; cbn [assoc] in H; [discriminate|]. cbn [map fst In].
+  destruct (a =? k) eqn:E; [left; lia|right; eauto].
+Qed.
+Lemma demote_unexecutables_M : forall o p p', caps_sound p -> demote_unexecutables o p = Ok p' -> M p'.
+Proof.
+  intros o p p' HC H. unfold demote_unexecutables in H.
+  destruct (demote_fold_aff o (order_keys (operm1 o) (map fst (pending p))) p p' [] HC) as (C' & F' & O' & A'); [intros a l []|exact H|].
+  split; auto. intros a l Hl.
+  destruct (in_dec Z.eq_dec a (order_keys (operm1 o) (map fst (pending p)))) as [Hin|Hnin]; [eapply A'; eauto|].
+  exfalso. apply Hnin. rewrite O' in Hl by auto. apply order_keys_in. eapply assoc_in_keys; eauto.
+Qed.
+
+(* M = caps_sound /\ pending_affordable through the loops and the operations *)
+Lemma shrink_fold_M : forall l (st r : pool * Z), M (fst st) ->
+  fold_res (fun (st : pool * Z) a => q <- shrink_one (fst st) a ;; Ok (q, (snd st - 1) mod two64)) l st = Ok r -> M (fst r).
+Proof.
+  intros l st r Hun H. eapply (fold_res_inv _ _ (fun st => M (fst st))); eauto.
+  intros a x a' Ha Hf. apply bind_ok in Hf. destruct Hf as (q & H1 & H2). inversion H2; subst. cbn [fst]. eapply shrink_one_M; eauto.
+Qed.
+Lemma equalize_M : forall fuel p cnt offs th r, M p -> equalize fuel p cnt offs th = Ok r -> M (fst r).
+Proof.
+  induction fuel as [|f IH]; intros p cnt offs th r Hun H; cbn [equalize] in H; [discriminate|].
+  apply bind_ok in H. destruct H as (n & _ & H).
+  destruct ((c_gslots (conf p) <? cnt) && (th <? n)); [|inversion H; subst; auto].
+  apply bind_ok in H. destruct H as (r1 & H1 & H2). eapply IH; [|exact H2]. eapply shrink_fold_M; [|exact H1]. auto.
+Qed.
+Lemma spam_loop_M : forall fuel o p cnt sp offs r, M p -> spam_loop fuel o p cnt sp offs = Ok r -> M (fst (fst r)).
+Proof.
+  induction fuel as [|f IH]; intros o p cnt sp offs r Hun H; cbn [spam_loop] in H; [discriminate|].
+  destruct (c_gslots (conf p) <? cnt); [|inversion H; subst; auto].
+  destruct (prque_pop o sp) as [[off rest]|]; [|inversion H; subst; auto].
+  destruct (1 <? Z.of_nat (length (offs ++ [off]))).
+  - apply bind_ok in H. destruct H as (th & _ & H). apply bind_ok in H. destruct H as (r1 & H1 & H2).
+    eapply IH; [|exact H2]. eapply equalize_M; eauto.
+  - eapply IH; eauto.
+Qed.
+Lemma minimum_loop_M : forall fuel p cnt offs r, M p -> minimum_loop fuel p cnt offs = Ok r -> M (fst r).
+Proof.
+  induction fuel as [|f IH]; intros p cnt offs r Hun H; cbn [minimum_loop] in H; [discriminate|].
+  apply bind_ok in H. destruct H as (n & _ & H).
+  destruct ((c_gslots (conf p) <? cnt) && (c_aslots (conf p) <? n)); [|inversion H; subst; auto].
+  apply bind_ok in H. destruct H as (r1 & H1 & H2). eapply IH; [|exact H2]. eapply shrink_fold_M; [|exact H1]. auto.
+Qed.
+Lemma pe_pending_limit_M : forall o p p', M p -> pe_pending_limit o p = Ok p' -> M p'.
+Proof.
+  intros o p p' Hun H. unfold pe_pending_limit in H. destruct (c_gslots (conf p) <? pending_count p); [|inversion H; subst; auto].
+  apply bind_ok in H. destruct H as ([[p1 cnt1] offs] & H1 & H2). apply spam_loop_M in H1; auto. cbn [fst] in H1.
+  destruct ((c_gslots (conf p1) <? cnt1) && negb (match offs with [] => true | _ => false end)); [|inversion H2; subst; auto].
+  apply bind_ok in H2. destruct H2 as (r2 & H3 & H4). inversion H4; subst. eapply minimum_loop_M; eauto.
+Qed.
+Lemma gq_loop_M : forall o addrs p drop p', M p -> gq_loop o p addrs drop = Ok p' -> M p'.
+Proof.
+  induction addrs as [|a rest IH]; intros p drop p' Hun H; cbn [gq_loop] in H; [inversion H; subst; auto|].
+  destruct (0 <? drop); [|inversion H; subst; auto]. destruct (assoc a (queue p)) as [l|]; [|discriminate].
+  destruct (tl_len l <=? drop); eapply IH; try exact H; apply remove_fold_M; auto.
+Qed.
+Lemma promote_executables_M : forall o p accs p', M p -> promote_executables o p accs = Ok p' -> M p'.
+Proof.
+  intros o p accs p' Hun H. unfold promote_executables in H.
+  apply bind_ok in H. destruct H as (p1 & H1 & H). apply bind_ok in H. destruct H as (p2 & H2 & H3).
+  assert (U1 : M p1). { eapply (fold_res_inv _ _ M); [|exact Hun|exact H1]. intros; eapply pe_account_M; eauto. }
+  assert (U2 : M p2) by (eapply pe_pending_limit_M; eauto).
+  unfold pe_queue_limit in H3. destruct (c_gqueue (conf p2) <? queued_count p2); [|inversion H3; subst; auto]. eapply gq_loop_M; eauto.
+Qed.
+Lemma add_tx_M : forall o p t local e p', M p -> add_tx o p t local = Ok (e, p') -> M p'.
+Proof.
+  intros o p t local e p' Hun H. unfold add_tx in H. destruct (add o p t local) as [[rep|er] p1] eqn:A; pose proof (add_M _ _ _ _ _ _ Hun A) as U1.
+  - destruct rep; [inversion H; subst; auto|]. apply bind_ok in H. destruct H as (p2 & H1 & H2). inversion H2; subst. eapply promote_executables_M; eauto.
+  - inversion H; subst; auto.
+Qed.
+Lemma add_txs_locked_M : forall o p txs local r, M p -> add_txs_locked o p txs local = Ok r -> M (snd r).
+Proof.
+  intros o p txs local r Hun H. unfold add_txs_locked in H.
+  assert (G : forall txs st, M (snd st) -> M (snd (fold_left (atl_step o local) txs st))).
+  { induction txs0 as [|t txs0 IH]; intros st Hst; cbn [fold_left]; auto. apply IH.
+    destruct st as [[errs dirty] q]. cbn [snd] in *. unfold atl_step. destruct (add o q t local) as [[rep|er] q1] eqn:A; cbn [snd]; eapply add_M; eauto. }
+  specialize (G txs ([], [], p) Hun).
+  destruct (fold_left (atl_step o local) txs ([], [], p)) as [[errs dirty] p1]. cbn [snd] in G.
+  destruct dirty; [inversion H; subst; auto|]. apply bind_ok in H. destruct H as (p2 & H1 & H2). inversion H2; subst. cbn [snd].
+  eapply promote_executables_M; eauto.
+Qed.
+Lemma set_gas_price_M : forall o p g, M p -> M (set_gas_price o p g).
+Proof.
+  intros o p g Hun. unfold set_gas_price. match goal with |- context [priced_cap ?a ?b ?c ?d ?e] => destruct (priced_cap a b c d e) as [drop pr] end.
+  apply remove_fold_M. exact Hun.
+Qed.
+(* reset needs only caps_sound of the old state: the head change invalidates affordability, demoteUnexecutables restores it *)
+Lemma reset_M : forall o p c g ri p', caps_sound p -> reset o p c g ri = Ok p' -> M p'.
+Proof.
+  intros o p c g ri p' HC H. unfold reset in H.
+  assert (C0 : caps_sound (set_head p c g)) by exact HC.
+  apply bind_ok in H. destruct H as (p1 & H1 & H). apply bind_ok in H. destruct H as (p2 & H2 & H). apply bind_ok in H. destruct H as (p3 & H3 & H4).
+  assert (C1 : caps_sound p1).
+  { destruct ri; [inversion H1; subst; auto|]. apply bind_ok in H1. destruct H1 as (r & A & B). inversion B; subst. eapply add_txs_locked_CS; eauto. }
+  assert (M2 : M p2) by (eapply demote_unexecutables_M; eauto).
+  assert (M3 : M p3).
+  { eapply (fold_res_inv _ _ M); [|exact M2|exact H3]. intros q a q' Hq Hf. cbv beta in Hf. destruct (assoc a (pending q)) as [tl|]; [|inversion Hf; subst; auto].
+    destruct (rev (items tl)); [discriminate|]. inversion Hf; subst. exact Hq. }
+  eapply promote_executables_M; eauto.
+Qed.
+Lemma step_M : forall o p x p', M p -> step o p x = Ok p' -> M p'.
+Proof.
+  intros o p x p' HM H. destruct x; cbn [step] in H.
+  - apply bind_ok in H. destruct H as ([e q] & H1 & H2). inversion H2; subst. eapply add_tx_M; eauto.
+  - apply bind_ok in H. destruct H as ([e q] & H1 & H2). inversion H2; subst. eapply add_tx_M; eauto.
+  - inversion H; subst. apply set_gas_price_M; auto.
+  - eapply reset_M; [apply HM|eauto].
+Qed.
+Theorem M_invariant : forall h p p', M p -> run p h = Ok p' -> M p'.
+Proof.
+  induction h as [|[o x] h IH]; intros p p' HM H; cbn [run] in H; [inversion H; subst; auto|].
+  apply bind_ok in H. destruct H as (p1 & H1 & H2). eapply IH; [|exact H2]. eapply step_M; eauto.
+Qed.
+(* the affordability half of pending_executable, and soundness of the cached ceilings, after every history *)
+Theorem affordable_invariant : forall h c gp cur0 gas0 p', run (new_pool c gp cur0 gas0) h = Ok p' -> caps_sound p' /\ pending_affordable p'.
+Proof.
+  intros h c gp cur0 gas0 p' H. apply (M_invariant h (new_pool c gp cur0 gas0)); auto.
+  split; [apply new_pool_CS|]. intros a l Hl. cbn in Hl. discriminate.
 Qed.
